@@ -105,8 +105,9 @@ package modbus
 //@   safety[C08,C07,C19]
 //@   structural[C08]
 //@   modifies[C08] nothing
-//@   modifies streamPos, reads, lastN, lastErr, lastBuf, hookReads, writes, bwCount, bwBuf, ctxErr, faults, flushes, timerNs, timers
+//@   modifies streamPos, reads, lastN, lastErr, lastBuf, hookReads, writes, bwCount, bwBuf, ctxErr, faults, flushes, timerNs, timers, sleeps, timerWrites, timerSleeps
 //@   ensures[C08.timer] timers <= old(timers) + 1 && (timers > old(timers) ==> timerNs == int(c.readTimeout))
+//@   ensures[C07.timer,C08.timer] timers > old(timers) ==> timerWrites == old(writes) + 1
 //@   fresh[C07] res
 //@   ensures[C07,C12,C19] err == nil ==> len(res) == streamPos - old(streamPos) && 1 <= len(res) && len(res) <= 260 && forall k in 0..len(res) :: res[k] == stream[old(streamPos) + k]
 //@   ensures[C07] err == nil ==> len(res) >= expectedLen || (errIs(lastErr, io.EOF) && faults > old(faults))
@@ -145,7 +146,7 @@ package modbus
 //@   guarded[C14] conn, address, hooks
 //@   shared[C14] conn, address
 //@   modifies[C08] nothing
-//@   modifies streamPos, reads, lastN, lastErr, lastBuf, hookReads, writes, bwCount, bwBuf, ctxErr, faults, flushes, bpCount, bpBuf, parseCount, lastDoRes, timerNs, timers
+//@   modifies streamPos, reads, lastN, lastErr, lastBuf, hookReads, writes, bwCount, bwBuf, ctxErr, faults, flushes, bpCount, bpBuf, parseCount, lastDoRes, timerNs, timers, sleeps, timerWrites, timerSleeps
 //@   ensures[C08.timer] timers <= old(timers) + 1 && (timers > old(timers) ==> timerNs == int(c.readTimeout))
 //@   ensures[C08] err != nil ==> nilish(resp)
 //@   ensures[C08] req == nil ==> err != nil && writes == old(writes) && reads == old(reads)
@@ -281,8 +282,9 @@ package modbus
 //@   safety[C08,C07,C19]
 //@   structural[C08]
 //@   modifies[C08] nothing
-//@   modifies streamPos, reads, lastN, lastErr, lastBuf, hookReads, writes, bwCount, bwBuf, ctxErr, faults, flushes, timerNs, timers
+//@   modifies streamPos, reads, lastN, lastErr, lastBuf, hookReads, writes, bwCount, bwBuf, ctxErr, faults, flushes, timerNs, timers, sleeps, timerWrites, timerSleeps
 //@   ensures[C08.timer] timers <= old(timers) + 1 && (timers > old(timers) ==> timerNs == int(c.readTimeout))
+//@   ensures[C07.timer,C08.timer] timers > old(timers) ==> timerWrites == old(writes) + 1 && timerSleeps == old(sleeps) + 1
 //@   fresh[C07] res
 //@   ensures[C07,C12,C19] err == nil ==> len(res) == streamPos - old(streamPos) && 1 <= len(res) && len(res) <= 256 && forall k in 0..len(res) :: res[k] == stream[old(streamPos) + k]
 //@   ensures[C07] err == nil ==> len(res) >= expectedLen
@@ -319,7 +321,7 @@ package modbus
 //@   lockdiscipline[C14]
 //@   guarded[C14] serialPort, hooks
 //@   modifies[C08] nothing
-//@   modifies streamPos, reads, lastN, lastErr, lastBuf, hookReads, writes, bwCount, bwBuf, ctxErr, faults, flushes, bpCount, bpBuf, parseCount, lastDoRes, timerNs, timers
+//@   modifies streamPos, reads, lastN, lastErr, lastBuf, hookReads, writes, bwCount, bwBuf, ctxErr, faults, flushes, bpCount, bpBuf, parseCount, lastDoRes, timerNs, timers, sleeps, timerWrites, timerSleeps
 //@   ensures[C08.timer] timers <= old(timers) + 1 && (timers > old(timers) ==> timerNs == int(c.readTimeout))
 //@   ensures[C08] err != nil ==> nilish(resp)
 //@   ensures[C08] req == nil ==> err != nil && writes == old(writes) && reads == old(reads)
